@@ -179,19 +179,28 @@ func genBft() (string, error) {
 		return "", fmt.Errorf("AggregateSignature.Check not found")
 	}
 	var partial ast.Expr
+	var partialInit ast.Stmt
 	for _, st := range asc.Body.List {
 		if is, ok := st.(*ast.IfStmt); ok && strings.Contains(g.StmtsText(is.Body.List), "return true, nil") {
-			partial = is.Cond
+			partial, partialInit = is.Cond, is.Init
 		}
 	}
 	if partial == nil {
 		return "", fmt.Errorf("AggregateSignature.Check: partial-QC branch not found")
 	}
+	thr.Cfg.Idents["vs.TotalPower"] = "totalPower" // available to the test, so that a re-derived threshold still translates
 	pe, err := thr.Expr(partial)
 	if err != nil {
 		return "", fmt.Errorf("partial QC: %v", err)
 	}
-	fmt.Fprintf(&b, "/-- lib/consensus.go AggregateSignature.Check: `if %s { return true, nil }` (isPartialQC) -/\ndef isPartialQC (voted minMaj23 : UInt64) : Bool := %s\n\n", g.ExprText(partial), pe)
+	if partialInit != nil { // `if f := ...; cond`
+		lets, err := thr.InitLets(partialInit, "")
+		if err != nil {
+			return "", fmt.Errorf("partial QC: %v", err)
+		}
+		pe = "(" + strings.ReplaceAll(strings.TrimSpace(lets), "\n", "; ") + "; " + pe + ")"
+	}
+	fmt.Fprintf(&b, "/-- lib/consensus.go AggregateSignature.Check: `if %s { return true, nil }` (isPartialQC); minMaj23 = vs.MinimumMaj23,\n    totalPower = vs.TotalPower -/\ndef isPartialQC (voted minMaj23 totalPower : UInt64) : Bool := %s\n\n", g.ExprText(partial), pe)
 
 	// ---- CheckHighQC: the conditions after x.Check
 	chq := cert.FindFunc("QuorumCertificate", "CheckHighQC")
